@@ -9,6 +9,7 @@ Record case := { k_fam : family; k_base : str; k_dflt : option value; k_steps : 
                  k_twin : option (list input * obs);
                  k_object : bool (* given through parse_object / config sources instead of plain argv: no twin *);
                  k_sibs : list part (* further class-typed options of the same parser (names may share a prefix) *);
+                 k_dstr : bool (* the option default was given as a string (class name / class path) *);
                  k_cont : option (list csrc * option (list (str * obs)))
                    (* Some: the option is typed Dict[str, k_base] / List[k_base]; its sources and, unless the parse
                       was rejected, the observation per element (k_steps / k_obs are then unused) *) }.
@@ -81,11 +82,12 @@ Definition joint (os : list obs) : list obs :=
 Definition parts_of (c : case) : list part :=
   {| s_base := k_base c; s_dflt := k_dflt c; s_steps := k_steps c; s_obs := k_obs c |} :: k_sibs c.
 
-Definition model_ok (runf : family -> str -> option value -> list input -> obs) (c : case) : bool :=
-  list_eqb obs_eqb (joint (map (fun p => runf (k_fam c) (s_base p) (s_dflt p) (s_steps p)) (parts_of c)))
+Definition model_ok (rs : raw -> raw) (runf : family -> str -> option value -> list input -> obs) (c : case) : bool :=
+  list_eqb obs_eqb (joint (run_dstr rs runf (k_fam c) (k_base c) (k_dflt c) (k_steps c) (k_dstr c)
+                           :: map (fun p => runf (k_fam c) (s_base p) (s_dflt p) (s_steps p)) (k_sibs c)))
                    (map s_obs (parts_of c))
   && match k_twin c with
-     | Some (tw, o) => obs_eqb (runf (k_fam c) (k_base c) (k_dflt c) tw) o
+     | Some (tw, o) => obs_eqb (run_dstr rs runf (k_fam c) (k_base c) (k_dflt c) tw (k_dstr c)) o
      | None => true
      end.
 
@@ -141,9 +143,10 @@ Definition judge1 (c : case) : verdict :=
   match k_cont c with
   | Some (srcs, o) => {| v_model := cont_model_ok restr c srcs o; v_class := 0; v_spec := cont_spec_ok c o |}
   | None =>
-  {| v_model := model_ok run c;
+  {| v_model := model_ok restr run c;
      v_class := if existsb (fun p => negb (N.eqb (guard_class (k_fam c) (s_base p) (s_dflt p) (s_steps p)) 0))
-                           (parts_of c) then 1%N else 0%N;
+                           (parts_of c) then 1%N
+                else dstr_class (k_fam c) (k_base c) (k_dflt c) (k_steps c) (k_dstr c);
      v_spec := spec_ok c |}
   end.
 
@@ -156,8 +159,8 @@ Definition judge1_fixed (c : case) : verdict :=
   match k_cont c with
   | Some (srcs, o) => {| v_model := cont_model_ok (fun r => r) c srcs o; v_class := 0; v_spec := cont_spec_ok c o |}
   | None =>
-  {| v_model := model_ok run_fixed c;
-     v_class := 0;
+  {| v_model := model_ok (fun r => r) run_fixed c;
+     v_class := dstr_class (k_fam c) (k_base c) (k_dflt c) (k_steps c) (k_dstr c);
      v_spec := spec_ok c |}
   end.
 
